@@ -859,7 +859,7 @@ func (e *enc) instr(in ssa.Instruction) {
 		switch t := x.X.Type().Underlying().(type) {
 		case *types.Basic: // string
 			e.safety("index", and("(>= "+idx.T+" 0)", "(< "+idx.T+" (str.len "+base.T+"))"), x.Pos())
-			e.bind(x, Val{T: "(str.to_code (str.at " + base.T + " " + idx.T + "))", S: "Int", GT: x.Type()})
+			e.bind(x, e.strByte(base.T, idx.T, x.Type()))
 		case *types.Array:
 			e.safety("index", and("(>= "+idx.T+" 0)", "(< "+idx.T+" "+fmt.Sprint(t.Len())+")"), x.Pos())
 			e.bind(x, Val{T: sel(base.T, idx.T), S: e.te.SortOf(t.Elem()), GT: t.Elem()})
@@ -1431,7 +1431,16 @@ func (e *enc) lookup(x *ssa.Lookup) {
 	}
 	// string index
 	e.safety("index", and("(>= "+k.T+" 0)", "(< "+k.T+" (str.len "+m.T+"))"), x.Pos())
-	e.bind(x, Val{T: "(str.to_code (str.at " + m.T + " " + k.T + "))", S: "Int", GT: x.Type()})
+	e.bind(x, e.strByte(m.T, k.T, x.Type()))
+}
+
+// strByte: the byte s[i] as a named constant, tied both to the string theory and to the uninterpreted observer byteAt
+// (contracts quantify over byteAt so that the string-free weakenings of a query keep the facts the code established).
+func (e *enc) strByte(s, i string, t types.Type) Val {
+	c := e.freshConst("ch", "Int")
+	e.assume(eq(c, "(str.to_code (str.at "+s+" "+i+"))"))
+	e.assume("(= (byteAt " + s + " " + i + ") " + c + ")")
+	return Val{T: c, S: "Int", GT: t}
 }
 
 func (e *enc) convert(x *ssa.Convert) {
